@@ -260,14 +260,48 @@ def wire_equal(di, a, b):
 
 # ------------------------------------------------------------------ reference validator
 
+def wire_contains(di, part, whole):
+    """<part> is <whole> with optional struct members left out (at any depth): every member given is equal"""
+    t = di['type']
+    try:
+        if t == 'array':
+            return isinstance(part, list) and isinstance(whole, list) and len(part) == len(whole) and \
+                all(wire_contains(di['members'], x, y) for x, y in zip(part, whole))
+        if t == 'tuple':
+            return len(part) == len(whole) == len(di['members']) and \
+                all(wire_contains(m, x, y) for m, x, y in zip(di['members'], part, whole))
+        if t == 'struct':
+            return set(part) <= set(whole) and all(wire_contains(di['members'][k], part[k], whole[k]) for k in part)
+        return wire_equal(di, part, whole)
+    except Exception:   # noqa
+        return False
+
+
+def has_struct(di):
+    t = di['type']
+    if t == 'struct':
+        return True
+    if t == 'array':
+        return has_struct(di['members'])
+    if t == 'tuple':
+        return any(has_struct(m) for m in di['members'])
+    return False
+
+
 def _isnum(x):
     return isinstance(x, (int, float)) and not isinstance(x, bool)
 
 
-def classify(di, w, previous=None):
+NOPREV = ('no previous value',)
+
+
+def classify(di, w, previous=None, param=False):
     """(verdict, info): ACCEPT -> info = canonical wire value; REJECT -> info = set of
     acceptable error classes; DONTCARE -> info = None.
-    <previous> is the current wire value of the parameter (partial struct merge)."""
+    <previous> is the current wire value of the parameter (partial struct merge).
+    <param>: the payload is the new value of a parameter: members left out are taken from the current value - member
+    by member, array element by array element - and where there is nothing to take them from (an array element
+    beyond the current length) the value is incomplete and must be refused"""
     t = di['type']
     if t == 'double':
         if isinstance(w, bool):
@@ -367,7 +401,11 @@ def classify(di, w, previous=None):
     if t == 'array':
         if not isinstance(w, list):
             return REJECT, {WRONGTYPE}
-        inner = _combine([classify(di['members'], e) for e in w], list)
+        def prev_of(i):
+            if isinstance(previous, list) and i < len(previous):
+                return previous[i]
+            return NOPREV if param else None
+        inner = _combine([classify(di['members'], e, prev_of(i), param) for i, e in enumerate(w)], list)
         if not di.get('minlen', 0) <= len(w) <= di['maxlen']:
             return REJECT, {RANGE} | (inner[1] if inner[0] == REJECT else set())
         return inner
@@ -376,7 +414,9 @@ def classify(di, w, previous=None):
             return REJECT, {WRONGTYPE}
         if len(w) != len(di['members']):
             return REJECT, {WRONGTYPE}
-        return _combine([classify(m, e) for m, e in zip(di['members'], w)], list)
+        return _combine([classify(m, e, previous[i] if isinstance(previous, list) and i < len(previous)
+                                   else (NOPREV if param else None), param)
+                         for i, (m, e) in enumerate(zip(di['members'], w))], list)
     if t == 'struct':
         if not isinstance(w, dict):
             return REJECT, {WRONGTYPE}
@@ -387,14 +427,20 @@ def classify(di, w, previous=None):
             return REJECT, {WRONGTYPE}
         keys = list(w)
         nulls = [k for k in keys if w[k] is None]
-        res = [classify(di['members'][k], w[k]) for k in keys if w[k] is not None]
+        res = [classify(di['members'][k], w[k], previous.get(k, NOPREV if param else None) if isinstance(previous, dict)
+                        else (NOPREV if param else None), param) for k in keys if w[k] is not None]
         verdict, info = _combine(res, list)
         if verdict == ACCEPT:
             if nulls:
                 return DONTCARE, None
             merged = dict(previous) if isinstance(previous, dict) else {}
-            merged.update(dict(zip([k for k in keys], info)))
-            if isinstance(previous, dict) or set(merged) == set(di['members']):
+            merged.update(dict(zip([k for k in keys if w[k] is not None], info)))
+            if set(merged) == set(di['members']):
+                return ACCEPT, merged
+            if param and (previous is NOPREV or isinstance(previous, dict)):
+                # nothing (more) to complete the value from: a parameter can not hold an incomplete struct
+                return REJECT, {WRONGTYPE}
+            if isinstance(previous, dict):
                 return ACCEPT, merged
             return DONTCARE, None      # partial struct and the current value is unknown
         return verdict, info
